@@ -275,7 +275,7 @@ package loader
 //@ spec normShape(d map[string]any) bool = has(d, "services") ==> isMap(d["services"]) && !fresh(svcs(d)) && role(svcs(d)) == 1 && (forall k string :: has(svcs(d), k) ==> isMap(svcs(d)[k]) && !fresh(svc(d, k)) && role(svc(d, k)) == 10 && okey(svc(d, k)) == k && svcShapeN(svc(d, k), k))
 
 //@ func Normalize
-//@   except precondition#5, precondition#6 : undischarged on the reference tree (engine limit or missing callee contract), not claimed
+//@   except precondition@17cb38#1, precondition@17cb38#2 : undischarged on the reference tree (engine limit or missing callee contract), not claimed
 //@   nopanic[C01,C11]
 //@   requires dict != nil
 //@   requires netShape(dict) && netSep(dict) && netClosed(dict)
